@@ -692,6 +692,12 @@ class ComplexModelMeta(with_metaclass(Prepareable, type(ModelBase))):
             if self.Attributes._subclasses is eattr._subclasses:
                 self.Attributes._subclasses = None
 
+        # the registry of customized variants is per class as well: give every
+        # class that is not a variant itself its own slot, otherwise the
+        # lookup finds the parent's registry
+        if self.__orig__ is None:
+            self.Attributes._variants = None
+
         # sanitize fields
         for k, v in type_info.items():
             # replace bare SelfRerefence
